@@ -8,7 +8,7 @@ import sys
 from unittest import mock
 from uuid import UUID
 
-from common import Ctx, hx, run_model
+from common import LEAN, REPO, VERIF, Ctx, hx, run_model
 from ref import frames as ref
 from ref import pv_client
 
@@ -24,6 +24,13 @@ TRUSTED = [
     "asyncio run-to-completion of callbacks on one thread; virtual-time loop harness/vloop.py",
 ]
 IDENT = b"AAAAAAAA-1111-2222-3333-444444444444"
+
+sys.path.insert(0, str(VERIF / "extract"))
+import crypto_consts  # noqa: E402
+
+
+def extract(ctx: Ctx):
+    crypto_consts.write(REPO, LEAN)
 
 
 def _reload():
